@@ -53,12 +53,12 @@ theorem C15_one_cleaner (w : Gomjml.Cache.World) (ttl : Int) (ops : List Gomjml.
   Gomjml.Cache.live_cleaners w _ (Gomjml.Cache.inv_reachable w ttl ops)
 
 /-- stopping cancels it; the next cached compilation starts exactly one again -/
-theorem C15_stop_then_restart (w : Gomjml.Cache.World) (s : Gomjml.Cache.CS) (d : Gomjml.Cache.Doc) :
+theorem C15_stop_then_restart (w : Gomjml.Cache.World) (s : Gomjml.Cache.CS) (d : Gomjml.Cache.Doc) (o : Gomjml.Cache.Opt) :
     (Gomjml.Cache.step w s .stop).1.cleaner = false ∧
     (let s1 := (Gomjml.Cache.step w s .stop).1
-     let s2 := (Gomjml.Cache.step w s1 (.render d true)).1
+     let s2 := (Gomjml.Cache.step w s1 (.render d true o)).1
      s2.cleaner = true ∧ s2.spawned = s1.spawned + 1) :=
-  ⟨Gomjml.Cache.stop_then_none w s, Gomjml.Cache.use_after_stop_starts_one w s d⟩
+  ⟨Gomjml.Cache.stop_then_none w s, Gomjml.Cache.use_after_stop_starts_one w s d o⟩
 
 /-- non-vacuity: three goroutines, two on the same template; a schedule that reaches a waiter's return -/
 example : (runSched (init (fun t => if t = 2 then 1 else 0) (fun t => t + 100)) [0, 0, 1, 1, 0, 0, 0, 1]).pc 1 = .ret (some 100) (some 0) := by
